@@ -178,8 +178,21 @@ CLAIMED["C10"] = {
     "technique": "TLA+ emit/parse/build model checked exhaustively over builder terms + the same terms replayed through the real builder, emitter and parser with TLC trace validation",
 }
 
+CLAIMED["C08"] = {
+    "level": "exploration",
+    "text": ("Totality of one pure function over all byte strings is not something a TLA+ model decides; the spec (FrontTrace.tla) is a per-call "
+             "monitor: no panic, a model or an error but never neither, blank input rejected, time within budget. Inputs: the repository's "
+             "corpora, a statement of every top-level grammar form incl. the unsupported list, literal extremes, invalid UTF-8, nesting up to "
+             "400, unbalanced delimiters and seeded token-level mutations of every corpus text, each parsed under the unfiltered and the "
+             "default context; TLC validates every record."),
+    "design_ref": "DESIGN.md 4/C08",
+    "note": ("Exploration only: a sample of the input space, no exhaustiveness claim; memory is not measured; the listener stack discipline "
+             "(ListenerStack.tla of the design) was not built."),
+    "technique": "seeded grammar/corpus mutation fuzzing with a TLA+ trace monitor as the oracle",
+}
+
 _NB = "not built yet in this round (design in DESIGN.md section 4)"
 NOT_APPLICABLE = {
     "C01": "needs the emitted SQL executed on PostgreSQL; no SQL engine exists in this sandbox and a TLA+ model of PostgreSQL would verify the model, not DAWGS (DESIGN.md section 5)",
-    "C02": _NB, "C03": _NB, "C04": _NB, "C05": _NB, "C06": _NB, "C07": _NB, "C08": _NB,     "C11": _NB, 
+    "C02": _NB, "C03": _NB, "C04": _NB, "C05": _NB, "C06": _NB, "C07": _NB,     "C11": _NB, 
 }
